@@ -69,29 +69,42 @@ def run_case(case, ctx):
     stamps = []
     versions = []
     rows_max = 0
-    for vi, ver in enumerate(case['versions']):
-        stamp = T0 + DAY * 100 + datetime.timedelta(hours=ver['stamp'])
-        idx = [dates[i] for i in ver['idx']]
-        vals = [float('nan') if v is None else float(v) for v in ver['vals']]
-        s = pd.Series(vals, index=pd.DatetimeIndex(idx), dtype=float)
-        b = Bi(s, stamp)
-        versions.append((stamp, s))
-        snap_b = (list(b.index), b.values.tolist())
+    # publication stamps may lie in the future of the wall clock (forward-dated publications): they are stamps like any other
+    base = datetime.datetime(2150, 1, 1) if case.get('future') else T0 + DAY * 100
+    batches, vi0 = [], 0
+    for size in (case.get('batch') or [1] * len(case['versions'])):
+        batches.append(list(range(vi0, vi0 + size))); vi0 += size
+    for grp in batches:
+        vi = grp[-1]
+        bs = []
+        for gi in grp:
+            ver = case['versions'][gi]
+            stamp = base + datetime.timedelta(hours=ver['stamp'])
+            idx = [dates[i] for i in ver['idx']]
+            vals = [float('nan') if v is None else float(v) for v in ver['vals']]
+            s = pd.Series(vals, index=pd.DatetimeIndex(idx), dtype=float)
+            bs.append(Bi(s, stamp))
+            versions.append((stamp, s))
+            stamps.append(stamp)
+            for d, v in zip(idx, vals):
+                ledger.setdefault(d, []).append((stamp, v))
+        snap_b = [(list(b.index), _vl(b)) for b in bs]
         snap_s = None if store is None else (list(store.index), store.values.tolist())
-        st, merged = ctx.call(bi_merge, store, b)
+        st, merged = ctx.call(bi_merge, store, bs[0] if len(bs) == 1 else list(bs))     # several versions handed over together, in order
         if st == 'ok':
-            okb = (list(b.index), _vl(b)) == (snap_b[0], _nl(snap_b[1])) and (store is None or (list(store.index), _vl(store)) == (snap_s[0], _nl(snap_s[1])))
+            okb = [(list(b.index), _vl(b)) for b in bs] == snap_b and (store is None or (list(store.index), _vl(store)) == (snap_s[0], _nl(snap_s[1])))
             ctx.check('merge_operands_unchanged', okb, lambda: 'bi_merge modified the store or the new version it was given')
         if st != 'ok':
             ctx.ev('asof_read_last'); ctx.fail('asof_read_last', 'bi_merge raised at version %d: %s' % (vi, core.exc_str(merged)))
             return
         store = merged
-        stamps.append(stamp)
-        for d, v in zip(idx, vals):
-            ledger.setdefault(d, []).append((stamp, v))
         rows_max = max(rows_max, len(store))
-        if not check_reads(ctx, store, ledger, stamps, 'after merging version %d' % vi):
+        if len(bs) > 1:
+            ctx.cls('several_versions_in_one_merge')
+        if not check_reads(ctx, store, ledger, stamps, 'after merging version%s %s' % ('s' if len(grp) > 1 else '', grp)):
             return
+    if case.get('future'):
+        ctx.cls('future_dated_stamps')
     # idempotence
     last_stamp, last_s = versions[-1]
     cands = [(-1, last_stamp, last_s)] + [(i, st_, s_) for i, (st_, s_) in enumerate(versions[:-1]) if [x for x in stamps].count(st_) == 1]
@@ -186,7 +199,16 @@ def gen_case(rng):
             idx = sorted(rng.sample(range(lo, hi), rng.randint(1, hi - lo)))
         vals = [rng.choice(pool) for _ in idx]
         versions.append({'stamp': stamp, 'idx': idx, 'vals': vals})
-    return {'ndates': nd, 'versions': versions}
+    case = {'ndates': nd, 'versions': versions}
+    if rng.random() < 0.25:
+        case['future'] = True
+    if rng.random() < 0.4:
+        batch, left = [], nv
+        while left:
+            k = min(left, rng.choice([1, 1, 2, 3]))
+            batch.append(k); left -= k
+        case['batch'] = batch
+    return case
 
 
 def plan(tier, seed, n):
